@@ -204,12 +204,23 @@ class ExactMarker(Harness):
             obs.append(('an approximate numeral is one the printer did not call exact', b_not(flag)))
             obs.append(('approx. marker shown', has_marker))
             if exact.variant == 1:
-                obs.append(('the exact companion is the fraction n/d', isinstance(deref_all(exact.fields[0]), (str, Opaque))))
+                e = deref_all(exact.fields[0])
+                pieces = e.info[1] if isinstance(e, Opaque) and isinstance(e.info, tuple) and e.info[0] == 'pieces' else None
+                shape = pieces is not None and len(pieces) == 3 and pieces[1] == '/' and all(isinstance(x, tuple) for x in (pieces[0], pieces[2]))
+                obs.append(('the exact companion is printed as numerator/denominator', bool(shape)))
+                if shape:
+                    def intval(x):
+                        x = deref_all(x)
+                        while isinstance(x, Struct) and len(x.fields) == 1:
+                            x = deref_all(x.fields[0])
+                        return x
+                    n_, d_ = intval(pieces[0][1]), intval(pieces[2][1])
+                    obs.append(('the fraction shown as exact denotes the value', z3.And(zint(d_) != 0, z3.ToReal(zint(n_)) == zreal(ctx['v']) * z3.ToReal(zint(d_)))))
         else:
             obs.append(('a rational always gets a numeral', False))
         return obs
 
-    PROBES = ['2^64', '10^9 + 1', '12345678901', '123456789 -> scientific', '1/3', '1/3000', '1/7', '22/7', '1e-10 + 1e-20']
+    PROBES = ['2^64', '10^9 + 1', '12345678901', '123456789 -> scientific', '1/3', '1/3000', '1/7', '22/7', '1e-10 + 1e-20', '-1/17', '-22/17', '1/17']
 
     def native(self, inputs, label):
         v = Fraction(inputs['v'])
@@ -226,6 +237,10 @@ class ExactMarker(Harness):
                 continue
             ev, av = parts.get('exactValue'), parts.get('approxValue')
             raw = obs_number_json(o)
+            if ev is not None and raw is not None and _r.match(r'^-?\d+/\d+$', ev):
+                if Fraction(ev) != raw[0]:
+                    bad.append('%r shows the fraction %s as exact but the value is %s' % (o.get('display'), ev, raw[0]))
+                continue
             if ev is None or av is not None or raw is None:
                 continue
             m_ = _r.match(r'^(-?\d+(?:\.\d+)?)(?:e(-?\d+))?$', ev)
@@ -366,8 +381,16 @@ def stub_is_recurring(ex, nc, args):
     k = ex.choose(min(mp, ex.env.get('max_block', 3) + 1), 'is_recurring result')        # 0 = None, p = 1..
     if k == 0:
         return none(ex)
-    D = ex.fresh('block', 'Int')
-    ex.assume(z3.And(D >= 0, D < base ** k))
+    # the block as its digits (least significant first): D = sum e_j * base^j; tagged so that `D / base^m % base`
+    # in the printing loop is read off as a digit instead of being derived from a division lemma
+    es = [ex.fresh('blockdigit', 'Int') for _ in range(k)]
+    for e in es:
+        ex.assume(z3.And(e >= 0, e < base))
+    D = z3.IntVal(0)
+    for j, e in enumerate(es):
+        D = D + e * (base ** j)
+    D = z3.simplify(D)
+    ex.memo[('digits_of', D.get_id())] = (int(base), es)
     ex.assume(z3.ToReal(D) == zreal(cur) * (base ** k - 1))
     return some(ex, Tup([D, k]))
 
@@ -406,7 +429,7 @@ def parse_numeral(chars, base):
             # ", period N"
             rest = ''.join(chr(x) for x in chars[i:] if is_conc(x))
             import re as _r
-            mm = _r.match(r'^, period (\\d+)\\]\\.\\.\\.$', rest)
+            mm = _r.match(r'^, period (\d+)\]\.\.\.$', rest)
             period_text = int(mm.group(1)) if mm else -1
             i = len(chars)
             where = 'done'
@@ -621,7 +644,9 @@ class DigitState:
             ex.assume(self.d[i] == 0)
         if z < n:
             ex.assume(self.d[z] != 0)
-        # remembered remainders are pairwise distinct (a repeat returns)
+        # remembered remainders are pairwise distinct (a repeat returns).  That none of them has a period below 10 (the
+        # small-period shortcut would have returned) is NOT assumed - it makes every query a hard mixed-integer problem -
+        # but used to shape counterexamples (prefer): the pre-state over-approximates the reachable ones
         seen = self.seen_cursors()
         for i in range(len(seen)):
             for j in range(i + 1, len(seen)):
@@ -689,9 +714,9 @@ class DigitLoopStep(Harness):
     max_paths = 60000
     _concrete = None
 
-    def __init__(self, base, modes, Ics, N, zs=None, max_block=9):
+    def __init__(self, base, modes, Ics, N, zs=None, max_block=9, tag=''):
         self.base, self.modes, self.Ics, self.N, self.zs, self.max_block = base, modes, Ics, N, zs, max_block
-        self.name = 'bigrat.to_digits_impl.loop_step.base%d.int%s' % (base, '_'.join(str(i) for i in Ics))
+        self.name = 'bigrat.to_digits_impl.loop_step.base%d.int%s%s' % (base, '_'.join(str(i) for i in Ics), '.' + tag if tag else '')
         self.entry_name = 'BigRat::to_digits_impl: one iteration of its loop from the loop head'
         self.describe = ('one real iteration of the long-division loop from the specified state "n digits produced" (n <= %d, integer-digit '
                          'estimates %s, any number of leading zeros, either sign, digit budgets %s, base %d): it returns a numeral that denotes the '
@@ -700,7 +725,7 @@ class DigitLoopStep(Harness):
         self.bounds = ['at most %d digits produced before the iteration' % N, 'intdigits in %s' % (Ics,), 'digit budgets %s' % (modes,),
                        'recurring blocks reported by the small-period shortcut: at most %d digits' % max_block]
         self.assumptions = ['pre-state = specification of long division after n steps (digits d_i = floor(base * c_i), remainders c_i in [0,1), '
-                            'remembered remainders pairwise distinct); reachability of the pre-state is established by the base-case harness '
+                            'remembered remainders pairwise distinct; an over-approximation of the reachable states); reachability of the pre-state is established by the base-case harness '
                             'and by this step itself (induction on n)']
         self.expect_classes = ['return', 'loop-head']
 
@@ -714,6 +739,10 @@ class DigitLoopStep(Harness):
         z = zopts[ex.choose(len(zopts), 'leading zero digits')]
         ex.env['max_block'] = self.max_block
         st = DigitState(ex, I, b, neg, Ic, n, z)
+        # the previous iteration did not run out of budget (it would have returned): (n-1) - zeros <= max(intdigits, ndigits)
+        ndig = 6 if mode == 'Default' else Ic + int(mode)
+        if n >= 1 and (n - 1) - min(z, n - 1) > max(Ic, ndig):
+            ex.assume(z3.BoolVal(False))
         fn, head = loop_head_of(ex.prog)
         return [fn, head, st.locals(ex, mode)], {'st': st, 'mode': mode}
 
@@ -788,10 +817,8 @@ class DigitLoopStep(Harness):
     def prefer(self, ctx):
         st = ctx['st']
         out = []
-        # steer models to states the small-period shortcut would not have ended earlier
-        for ck in st.seen_cursors():
-            for p_ in (1, 2, 3):
-                out.append(z3.Not(z3.IsInt(ck * (st.base ** p_ - 1))))
+        for ck in st.seen_cursors() + [st.c[st.n]]:
+            out.append(z3.And(*[z3.Not(z3.IsInt(ck * (st.base ** p_ - 1))) for p_ in range(1, 10)]))
         return out
 
     def native(self, inputs, label):
@@ -885,19 +912,17 @@ class DigitLoopBase(Harness):
 
 
 _c05_prev3 = harnesses
-LOOP_STEP_ENABLED = False
 
 
 def harnesses(tier):   # noqa: F811
     hs = _c05_prev3(tier)
     hs.append(DigitLoopBase(10))
-    if not LOOP_STEP_ENABLED:
-        return hs
     if tier == 'quick':
-        hs += [DigitLoopStep(10, ['Default', '2'], [1], 8, zs=[0, 1]), DigitLoopStep(10, ['Default', '2'], [2], 8, zs=[0, 1])]
+        hs += [DigitLoopStep(10, ['Default', '2'], [1], 8, zs=[0, 1]), DigitLoopStep(10, ['Default', '2'], [2], 8, zs=[0, 1]),
+               DigitLoopStep(10, ['12'], [1], 13, zs=[0], tag='deep')]
     else:
         hs += [DigitLoopBase(2), DigitLoopBase(16)]
         for Ic in (1, 2, 3):
-            hs.append(DigitLoopStep(10, ['Default', '0', '3'], [Ic], 14))
-        hs += [DigitLoopStep(2, ['Default', '2'], [1, 2], 10), DigitLoopStep(16, ['Default', '2'], [1, 2], 10)]
+            hs.append(DigitLoopStep(10, ['Default', '0', '3', '12'], [Ic], 14))
+        hs += [DigitLoopStep(2, ['Default', '2'], [1, 2], 10), DigitLoopStep(16, ['Default', '2'], [1, 2], 5, max_block=4)]
     return hs
